@@ -38,6 +38,44 @@ type c19Case struct {
 	// slot per request message; Content/Pos/Delta above are unused.
 	Slots []string `json:"slots,omitempty"`
 	Trim  bool     `json:"trim,omitempty"` // trailing unmarked messages get no entry in expand_requests at all (list shorter than the stream)
+	// via=suite only: the other directives of the suite file the test case sits in,
+	// as '+'-joined tokens (see c19SuiteVariants); "" = a server-mode suite with
+	// relies_on_message_receive_limit and one relevant value per dimension.
+	Suite string `json:"suite,omitempty"`
+}
+
+// c19SuiteVariants: every combination of the suite-level directives that decide
+// WHERE a suite runs. None of them has anything to do with expand_requests
+// ("To support extremely large messages, as well as very precisely-sized
+// messages ..." - suite.proto), so a marked request must be expanded - or the
+// suite rejected - under every one of them:
+//
+//	limit flag   relies_on_message_receive_limit set | not set ("nolimitflag")
+//	mode         TEST_MODE_SERVER | TEST_MODE_CLIENT ("client") | unspecified ("anymode")
+//	one of       - | relies_on_tls ("tls") | + relies_on_tls_client_certs ("certs") | relies_on_connect_get ("get")
+//	             | connect_version_mode REQUIRE ("vreq") / IGNORE ("vign")
+//	             | relevant_protocols / relevant_http_versions / relevant_compressions left empty = all ("allprotocols", "allhttp", "allcompressions")
+//
+// The base combination (limit flag, server mode, nothing else) is the one every
+// other suite-path case uses and is not repeated here.
+func c19SuiteVariants() []string {
+	var out []string
+	for _, lim := range []string{"", "nolimitflag"} {
+		for _, mode := range []string{"", "client", "anymode"} {
+			for _, extra := range []string{"", "tls", "certs", "get", "vreq", "vign", "allprotocols", "allhttp", "allcompressions"} {
+				var toks []string
+				for _, t := range []string{lim, mode, extra} {
+					if t != "" {
+						toks = append(toks, t)
+					}
+				}
+				if len(toks) > 0 {
+					out = append(out, strings.Join(toks, "+"))
+				}
+			}
+		}
+	}
+	return out
 }
 
 // c19SlotAlphabet: what one request message of a multi-directive case is.
@@ -145,7 +183,7 @@ func c19JudgeMulti(r *rep.Report, tc c19Case, verbose bool) string {
 	before := proto.Clone(testCase).(*conformancev1.TestCase) //nolint:errcheck,forcetypeassert
 	var res c19Result
 	if tc.Via == "suite" {
-		res = c19RunSuite(testCase)
+		res = c19RunSuite(testCase, tc.Suite)
 	} else {
 		res = c19RunDirect(testCase)
 	}
@@ -422,8 +460,10 @@ func c19RunDirect(testCase *conformancev1.TestCase) (res c19Result) {
 }
 
 // c19RunSuite sends the case through the public path: a one-case suite file is
-// parsed by parseTestSuites (which expands) and turned into a library.
-func c19RunSuite(testCase *conformancev1.TestCase) (res c19Result) {
+// parsed by parseTestSuites (which expands) and turned into a library. variant
+// names the other directives of the suite (c19SuiteVariants); the library is
+// asked for the one configuration under which such a suite runs.
+func c19RunSuite(testCase *conformancev1.TestCase, variant string) (res c19Result) {
 	defer func() {
 		if p := recover(); p != nil {
 			res.panicked = p
@@ -439,6 +479,47 @@ func c19RunSuite(testCase *conformancev1.TestCase) (res c19Result) {
 		RelevantCompressions:        []conformancev1.Compression{conformancev1.Compression_COMPRESSION_IDENTITY},
 		TestCases:                   []*conformancev1.TestCase{testCase},
 	}
+	cfg := configCase{
+		Version:                conformancev1.HTTPVersion_HTTP_VERSION_2,
+		Protocol:               conformancev1.Protocol_PROTOCOL_CONNECT,
+		Codec:                  conformancev1.Codec_CODEC_PROTO,
+		Compression:            conformancev1.Compression_COMPRESSION_IDENTITY,
+		StreamType:             testCase.Request.StreamType,
+		UseMessageReceiveLimit: true,
+	}
+	libMode := conformancev1.TestSuite_TEST_MODE_SERVER
+	if variant != "" {
+		for _, tok := range strings.Split(variant, "+") {
+			switch tok {
+			case "nolimitflag":
+				suite.ReliesOnMessageReceiveLimit, cfg.UseMessageReceiveLimit = false, false
+			case "client":
+				suite.Mode, libMode = conformancev1.TestSuite_TEST_MODE_CLIENT, conformancev1.TestSuite_TEST_MODE_CLIENT
+			case "anymode":
+				suite.Mode = conformancev1.TestSuite_TEST_MODE_UNSPECIFIED
+			case "tls":
+				suite.ReliesOnTls, cfg.UseTLS = true, true
+			case "certs":
+				suite.ReliesOnTls, suite.ReliesOnTlsClientCerts, cfg.UseTLS, cfg.UseTLSClientCerts = true, true, true, true
+			case "get":
+				suite.ReliesOnConnectGet, cfg.UseConnectGET = true, true
+			case "vreq":
+				suite.ConnectVersionMode = conformancev1.TestSuite_CONNECT_VERSION_MODE_REQUIRE
+				cfg.ConnectVersionMode = suite.ConnectVersionMode
+			case "vign":
+				suite.ConnectVersionMode = conformancev1.TestSuite_CONNECT_VERSION_MODE_IGNORE
+				cfg.ConnectVersionMode = suite.ConnectVersionMode
+			case "allprotocols":
+				suite.RelevantProtocols = nil
+			case "allhttp":
+				suite.RelevantHttpVersions = nil
+			case "allcompressions":
+				suite.RelevantCompressions = nil
+			default:
+				panic("c19 harness: unknown suite variant token " + tok)
+			}
+		}
+	}
 	// JSON is YAML: the suite file is written with protojson and read back by
 	// the real protoyaml-based loader.
 	data, err := protojson.Marshal(suite)
@@ -450,14 +531,7 @@ func c19RunSuite(testCase *conformancev1.TestCase) (res c19Result) {
 		res.err = err
 		return res
 	}
-	lib, err := newTestCaseLibrary(suites, []configCase{{
-		Version:                conformancev1.HTTPVersion_HTTP_VERSION_2,
-		Protocol:               conformancev1.Protocol_PROTOCOL_CONNECT,
-		Codec:                  conformancev1.Codec_CODEC_PROTO,
-		Compression:            conformancev1.Compression_COMPRESSION_IDENTITY,
-		StreamType:             testCase.Request.StreamType,
-		UseMessageReceiveLimit: true,
-	}}, conformancev1.TestSuite_TEST_MODE_SERVER)
+	lib, err := newTestCaseLibrary(suites, []configCase{cfg}, libMode)
 	if err != nil {
 		res.err = err
 		return res
@@ -481,6 +555,10 @@ func c19Judge(r *rep.Report, tc c19Case, verbose bool) string {
 		return c19JudgeMulti(r, tc, verbose)
 	}
 	const limit = int64(serverReceiveLimit)
+	pfx := "" // violations seen only under other suite-level directives get their own keys
+	if tc.Suite != "" {
+		pfx = "under-other-suite-directives:"
+	}
 	testCase, orig := c19TestCase(tc)
 	before := proto.Clone(testCase).(*conformancev1.TestCase) //nolint:errcheck,forcetypeassert
 	unpadded := int64(proto.Size(orig))
@@ -491,11 +569,14 @@ func c19Judge(r *rep.Report, tc c19Case, verbose bool) string {
 
 	var res c19Result
 	if tc.Via == "suite" {
-		res = c19RunSuite(testCase)
+		res = c19RunSuite(testCase, tc.Suite)
 	} else {
 		res = c19RunDirect(testCase)
 	}
 	describe := func(what string) string {
+		if tc.Suite != "" {
+			what += fmt.Sprintf(" [suite directives besides the test case: %s — limit flag: relies_on_message_receive_limit, nolimitflag = not set; client/anymode = suite mode; tls/certs/get/vreq/vign = relies_on_tls / _client_certs / relies_on_connect_get / connect_version_mode; all* = relevant_* list left empty]", tc.Suite)
+		}
 		return fmt.Sprintf("%s: via=%s %s/%s pos=%d size_relative_to_limit=%d: limit=%d target=%d unpadded size=%d (size without request_data=%d, existing request_data=%d bytes); model: reachable=%v (request_data length %d)",
 			what, tc.Via, tc.Type, tc.Content, tc.Pos, tc.Delta, limit, target, unpadded, base, len(existing), reachable, wantLen)
 	}
@@ -523,13 +604,13 @@ func c19Judge(r *rep.Report, tc c19Case, verbose bool) string {
 	}
 
 	if res.panicked != nil {
-		r.Violate("expand-panics",
+		r.Violate(pfx+"expand-panics",
 			describe(fmt.Sprintf("panic instead of an error (%v) [target class: %s]", res.panicked, why)), tc)
 		return "PANIC/" + why
 	}
 	if res.err != nil {
 		if expect == "ok" {
-			r.Violate("reachable-rejected",
+			r.Violate(pfx+"reachable-rejected",
 				describe(fmt.Sprintf("rejected although the size is reachable (error: %v)", res.err)), tc)
 			return "REJECTED-REACHABLE"
 		}
@@ -540,7 +621,7 @@ func c19Judge(r *rep.Report, tc c19Case, verbose bool) string {
 	after := res.after
 	got, err := after.Request.RequestMessages[tc.Pos].UnmarshalNew()
 	if err != nil {
-		r.Violate("padding-result-unreadable", describe("expanded message cannot be unmarshalled: "+err.Error()), tc)
+		r.Violate(pfx+"padding-result-unreadable", describe("expanded message cannot be unmarshalled: "+err.Error()), tc)
 		return "UNREADABLE"
 	}
 	gotSize := int64(proto.Size(got))
@@ -548,19 +629,19 @@ func c19Judge(r *rep.Report, tc c19Case, verbose bool) string {
 		fmt.Printf("  observed: size=%d request_data=%d bytes\n", gotSize, len(c19GetData(got)))
 	}
 	if expect == "error" {
-		r.Violate("unreachable-not-rejected",
+		r.Violate(pfx+"unreachable-not-rejected",
 			describe(fmt.Sprintf("accepted although the size is unreachable (%s); resulting size %d", why, gotSize)), tc)
 		return "ACCEPTED-UNREACHABLE"
 	}
 	bad := false
 	if gotSize != target {
-		r.Violate("padding-size-off:"+tc.Type,
+		r.Violate(pfx+"padding-size-off:"+tc.Type,
 			describe(fmt.Sprintf("expanded size is %d, want %d", gotSize, target)), tc)
 		bad = true
 	}
 	if int64(len(after.Request.RequestMessages[tc.Pos].Value)) != gotSize {
 		// the Any must carry exactly that serialization
-		r.Violate("padding-size-off:"+tc.Type,
+		r.Violate(pfx+"padding-size-off:"+tc.Type,
 			describe(fmt.Sprintf("Any value has %d bytes but the message has size %d",
 				len(after.Request.RequestMessages[tc.Pos].Value), gotSize)), tc)
 		bad = true
@@ -570,7 +651,7 @@ func c19Judge(r *rep.Report, tc c19Case, verbose bool) string {
 	got.ProtoReflect().Clear(c19DataField(got))
 	if !proto.Equal(got, c19WithoutData(orig)) ||
 		got.ProtoReflect().Descriptor().FullName() != orig.ProtoReflect().Descriptor().FullName() {
-		r.Violate("padding-changed-other-field",
+		r.Violate(pfx+"padding-changed-other-field",
 			describe("a field other than request_data differs after expansion"), tc)
 		bad = true
 	}
@@ -579,20 +660,20 @@ func c19Judge(r *rep.Report, tc c19Case, verbose bool) string {
 		expanded := after.Request.RequestMessages[tc.Pos]
 		after.Request.RequestMessages[tc.Pos] = before.Request.RequestMessages[tc.Pos]
 		if !proto.Equal(after, before) {
-			r.Violate("padding-changed-other-field",
+			r.Violate(pfx+"padding-changed-other-field",
 				describe("the test case differs outside the expanded message"), tc)
 			bad = true
 		}
 		after.Request.RequestMessages[tc.Pos] = expanded
 	} else if tc.Pos == 1 {
 		if !proto.Equal(after.Request.RequestMessages[0], before.Request.RequestMessages[0]) {
-			r.Violate("padding-changed-other-field",
+			r.Violate(pfx+"padding-changed-other-field",
 				describe("a message without size directive was changed"), tc)
 			bad = true
 		}
 	}
 	if target >= unpadded && !bytes.HasPrefix(gotData, existing) {
-		r.Violate("padding-changed-existing-data",
+		r.Violate(pfx+"padding-changed-existing-data",
 			describe("existing request_data is not a prefix of the padded request_data"), tc)
 		bad = true
 	}
@@ -733,9 +814,34 @@ func c19EnumerateMulti(visit func(tc c19Case) bool) bool {
 	return true
 }
 
+// c19EnumerateSuiteVariants: the suite path under every other combination of
+// suite-level directives, for every request type x 2 contents x offsets
+// {0, +1, -1, -1000 (a large but legal message), the first unreachable size
+// (varint gap at 2^14; must reject the suite), -limit-1 (negative; must reject)}.
+func c19EnumerateSuiteVariants(visit func(tc c19Case) bool) bool {
+	const limit = int64(serverReceiveLimit)
+	for _, variant := range c19SuiteVariants() {
+		for _, typ := range c19Types {
+			for _, content := range []string{"empty", "respdef+data127"} {
+				base := int64(proto.Size(c19WithoutData(c19Build(typ, content))))
+				gap := base + c19Cost(1<<14-1) + 1
+				for _, delta := range []int64{0, 1, -1, -1000, gap - limit, -limit - 1} {
+					if !visit(c19Case{Via: "suite", Type: typ, Content: content, Delta: delta, Suite: variant}) {
+						return false
+					}
+				}
+			}
+		}
+	}
+	return true
+}
+
 func c19Enumerate(thorough bool, visit func(tc c19Case) bool) {
 	// multi-directive cases first: few, and independent of the offset sweeps
 	if !c19EnumerateMulti(visit) {
+		return
+	}
+	if !c19EnumerateSuiteVariants(visit) {
 		return
 	}
 	for _, via := range []string{"direct", "suite"} {
@@ -771,7 +877,8 @@ func TestVerifC19Expand(t *testing.T) {
 		"request_data length prefix grows (2^7, 2^14, 2^21; 2^28 for two messages in the thorough tier), round the unpadded size, round the size without request_data, " +
 		"round target 0, {-limit-1, -limit, MinInt32, MaxInt32} and a complete sweep of all targets 0..700 (quick) / 0..17500 (thorough); plus multi-directive cases: " +
 		"client-stream / bidi streams of 2 and 3 requests with every assignment of {unmarked, marked and needing padding with offset 0/+1/-1, marked and already exactly limit+offset long, " +
-		"marked and one byte too long} to the requests (8^2+8^3 per type; streams of 2 also through the suite path; shorter expand_requests list where the stream ends unmarked), every marked request judged on its own; every case is a distinct " +
+		"marked and one byte too long} to the requests (8^2+8^3 per type; streams of 2 also through the suite path; shorter expand_requests list where the stream ends unmarked), every marked request judged on its own; " +
+		"plus the suite path under every other combination of suite-level directives (relies_on_message_receive_limit set / not set x mode server / client / unspecified x {-, relies_on_tls, +client certs, relies_on_connect_get, connect_version_mode require / ignore, relevant protocols / HTTP versions / compressions left empty}: 53 combinations) x 5 types x 2 contents x offsets {0, +1, -1, -1000, first unreachable size, -limit-1}; every case is a distinct " +
 		"tuple; non-trivial = the target differs from the unpadded size (something has to be decided: pad, shrink or reject)"
 
 	if data := rep.ReplayInput(); data != nil {
